@@ -19,6 +19,9 @@
 (*   lazy owner:       pin pending -> ledger on first use / -> closed at    *)
 (*                     the end of a request that did no recursive work      *)
 (*                     (both under the carrier's pin lock: one action)      *)
+(* Every call is an invocation (XStart: operands fixed) followed by its     *)
+(* entry (XEnter: recursionWorkForUse / RecursionWorkFrom + controlError,   *)
+(* the first step that touches shared state), then its atomics.             *)
 (*                                                                         *)
 (* rootState folds the pin and the ledger's own root word:                  *)
 (*   pending (pin, no ledger yet), live, rootDone, closed (pin tombstone).  *)
